@@ -1281,6 +1281,16 @@ fn hist_step(loc: &mut Locale, op: &str) -> Option<String> {
         "mx" => format!("b{}", b(loc.id.maximize())),
         #[cfg(feature = "likely")]
         "mn" => format!("b{}", b(loc.id.minimize())),
+        // character_direction() as a getter inside a history (a call that reads, between calls that write)
+        #[cfg(feature = "likely")]
+        "cd" => format!(
+            "d{}",
+            match loc.id.character_direction() {
+                unic_langid_impl::CharacterDirection::LTR => "LTR",
+                unic_langid_impl::CharacterDirection::RTL => "RTL",
+                unic_langid_impl::CharacterDirection::TTB => "TTB",
+            }
+        ),
         _ => return None,
     })
 }
